@@ -288,6 +288,7 @@ def handle_failures(ctx, drv, scen, tfile, bad, cap):
     if not todo:
         return
     mins = [minimise(ctx, drv, scen[i]) for i in todo]
+    ctx.log('minimised %d rejected runs' % len(mins))
     mt, _ = drive(ctx, drv, mins, 'mins')
     mbad = flat_all(ctx, mt)
     mparts = vlib.split_traces(mt)
@@ -298,7 +299,9 @@ def handle_failures(ctx, drv, scen, tfile, bad, cap):
             chosen.append((mins[j], mparts[j][1], mbad[j]))
         else:   # the diagnostic oracle and TLC disagree on the minimised run: keep the original
             chosen.append((scen[i], parts[i][1], bad[i]))
+    ctx.log('minimised runs confirmed by FlatMemTrace: %d of %d' % (len(mbad), len(mins)))
     acc = banked_explains(ctx, [c[1] for c in chosen], HYPS, 'classify')
+    ctx.log('classified')
     results = [(sc, recs, lw[0], lw[1], name_deviation(acc[j], recs[0])) for j, (sc, recs, lw) in enumerate(chosen)]
     for sc, recs, line, why, dev in results:
         if dev == 'model_accepts_without_deviation':
@@ -416,7 +419,8 @@ def deviation_counterexamples(ctx, thorough):
     found = {}
     todo = [('cx_bypass', 't1'), ('cx_lane', 'w2')] + ([('cx_pass', 't1')] if thorough else [])
     for name, kind in todo:
-        r = ctx.tlc(['dram'], 'BankedMemScen.tla', 'BankedMemScen_%s.cfg' % name, timeout=1200, kind='mc_deviation')
+        r = ctx.tlc(['dram'], 'BankedMemScen.tla', 'BankedMemScen_%s.cfg' % name, timeout=1200, kind='mc_deviation',
+                    workers=1)   # one worker: the counterexample (hence the scenario) is the same every time
         if not r.violated:
             raise vlib.Infra('deviation model %s no longer produces its counterexample:\n%s' % (name, r.out[-1500:]))
         ce = r.counterexample()
